@@ -257,7 +257,8 @@ func runC04B(st *ev.Stats, c C04Case) string {
 		grantee := evmasm.FrameAddr(op.G)
 		live := func(m int) *c04Grant {
 			g := ledger[key(op.G, m)]
-			if g == nil || g.Expiry.Before(now) { // a grant is live up to and including its expiry instant
+			if g == nil || g.Expiry.Before(now) { // authz treats a grant as existing up to and including its expiry instant
+
 				return nil
 			}
 			return g
@@ -336,6 +337,19 @@ func runC04B(st *ev.Stats, c C04Case) string {
 			before := n.Storage(grantee, evmasm.ResultSlot(op.G, 0))
 			_ = before
 			g := live(op.M)
+			if g != nil && g.Expiry.Equal(now) {
+				// exactly at the expiry instant the grant still exists for authz but can no longer be re-saved
+				// ("expiration must be after the current block time"), so whether a spend goes through is not
+				// determined by the property: no expectation, the grant comparison below still runs
+				st.Class("spend-at-the-expiry-instant")
+				ethCall(grantee, nil)
+				if a, _ := app.AuthzKeeper.GetAuthorization(n.Ctx(), pxFrameAcc(op.G), pxSigner.Addr, c04Msgs[op.M]); a == nil {
+					delete(ledger, key(op.G, op.M))
+				} else if sa := a.(*stakingtypes.StakeAuthorization); sa.MaxTokens != nil && !g.Unlimited {
+					g.Limit = sa.MaxTokens.Amount.BigInt()
+				}
+				continue
+			}
 			covered := g != nil && (g.Unlimited || amt.Cmp(g.Limit) <= 0)
 			delBefore := pxAccount(n, pxSigner.Addr)
 			code, vmErr, log := ethCall(grantee, nil)
